@@ -11,7 +11,7 @@ from ..util import Abort, Info, cm_enter, cm_exit, expect, expect_eq, impl
 
 ID = "C05"
 LEVEL = "fault_enumeration"
-BUDGET = {"quick": 1200, "thorough": 60000}
+BUDGET = {"quick": 900, "thorough": 60000}
 RULE = (
     "case = (prune flag, prior history incl. earlier batches, batch op list, follow-up "
     "history). Each case is executed once per EXIT of the batch, all enumerated: normal "
